@@ -59,6 +59,8 @@ class Ctx:
         self.floors = {}        # rule -> (matched, floor)
         self.extra = {}
         self.consulted = set()
+        self._unwrapped_seen = set()
+        self._unwrapped_rule = False
 
     # recording ---------------------------------------------------------------
     def rule(self, rid, text):
@@ -74,7 +76,37 @@ class Ctx:
         f = self.repo.func(modname, qual)
         self.functions.add(self.repo.func_qual(f))
         self.consulted.add(f._module.relpath)
+        self.unwrapped(f)
         return f
+
+    def unwrapped(self, f):
+        """T0-wrapped: the rules decide what a function's own body does; a decorator that is not one of Python's descriptor
+        builders (staticmethod/classmethod/property and its setters) replaces the function by a wrapper that callers get
+        instead - caching, converting arguments or results - which no rule on the body sees."""
+        if getattr(f, "decorator_list", None) is None or id(f) in self._unwrapped_seen:
+            return
+        self._unwrapped_seen.add(id(f))
+        holder = getattr(f, "_parent", None)
+        for st in getattr(holder, "body", []) or []:
+            # `f = wrap(f)` after the def is the same thing without the @
+            if isinstance(st, model.ast.Assign) and any(isinstance(t, model.ast.Name) and t.id == f.name for t in st.targets) and \
+                    getattr(st, "lineno", 0) > getattr(f, "lineno", 0):
+                if not self._unwrapped_rule:
+                    self._unwrapped_rule = True
+                    self.rule("T0-wrapped", "functions the rules are anchored in carry no decorator other than staticmethod/classmethod/property")
+                self.bad("T0-wrapped", st, "%s rebound after its definition: %s" % (f.name, model.src(st)[:60]),
+                         "callers get the new binding, not the analysed function")
+        for d in f.decorator_list:
+            name = model.dotted(d.func if isinstance(d, model.ast.Call) else d) or "?"
+            if name in ("staticmethod", "classmethod", "property") or name.split(".")[-1] in ("setter", "getter", "deleter"):
+                continue
+            if not self._unwrapped_rule:
+                self._unwrapped_rule = True
+                self.rule("T0-wrapped", "functions the rules are anchored in carry no decorator other than staticmethod/classmethod/property")
+            self.bad("T0-wrapped", f, "@%s on %s" % (name, f.name),
+                     "callers no longer get the analysed function but whatever the decorator returns: a memoising or converting wrapper "
+                     "changes results (a cache keyed too coarsely hands one input another input's answer; a result converted back to "
+                     "the argument's type is truncated) while the body the rules look at is unchanged")
 
     def cls(self, modname, name):
         c = self.repo.cls(modname, name)
